@@ -5,6 +5,7 @@
 package wsx
 
 import (
+	"time"
 	"bufio"
 	"bytes"
 	"crypto/sha1"
@@ -23,6 +24,7 @@ type Opts struct {
 	ClientRB, ClientWB, ServerRB, ServerWB int
 	ClientComp, ServerComp                 bool
 	ClientSub, ServerSub                   []string
+	HandshakeTimeout                       time.Duration // both sides (0: none)
 }
 
 type Pair struct {
@@ -74,6 +76,7 @@ func (p *Pair) Dial() {
 		WriteBufferSize:   p.O.ClientWB,
 		EnableCompression: p.O.ClientComp,
 		Subprotocols:      p.O.ClientSub,
+		HandshakeTimeout:  p.O.HandshakeTimeout,
 	}
 	p.Client, p.Resp, p.ClientErr = d.Dial("ws://sim.example/ws", nil)
 	p.HsC2S = int(p.CC.Out.TotalNow())
@@ -95,6 +98,7 @@ func (p *Pair) Upgrade() {
 		WriteBufferSize:   p.O.ServerWB,
 		EnableCompression: p.O.ServerComp,
 		Subprotocols:      p.O.ServerSub,
+		HandshakeTimeout:  p.O.HandshakeTimeout,
 	}
 	p.Server, p.ServerErr = u.Upgrade(w, req, nil)
 	if p.ServerErr != nil && w.code != 0 {
